@@ -90,6 +90,8 @@ type World struct {
 	simTime     time.Duration
 	faults      map[string]int
 	stalls      *dsync.StallConfig
+	stallsSeen  int64
+	stallFaultAt, stallFaults int
 	cancels     []*cancelAct
 	pending     []*worldAct // one-shot harness actions (close manager, crash, ...)
 	sigParts    []string
